@@ -5,7 +5,7 @@ gen:   `_HyperRectangleGrid.coordinates_to_index` / `index_to_coordinates` are t
 prove: coq/C13/*.v - index round trips / ranges / strides on the generated functions (every shape); lexicographic
        layout of UniformGrid and Tensor1DGrids points and kron weights through the generated index map (any vector
        type, skewed axes); separable integrands; sum bound of the constant weight schemes (all shapes, 2-D/3-D);
-       Fourier1 bound for n_i <= 32 (partial); Fourier2 refuted; from_molecule box arithmetic (partial + refuted);
+       Fourier1: factorisation into closed-form per-direction factors (all shapes), bound for n_i <= 64 (partial); Fourier2 refuted; from_molecule box arithmetic (partial + refuted);
        closest_point (partial + refuted); cube data block chunking (partial); nested-spline interpolation reproduces
        tricubic polynomials and derivatives (spline = oracle Section variable); log-variant chain rule, orders 1-3.
 tie:   exhaustive index tables for a family of small shapes (vm_compute on the generated functions); exact
@@ -119,7 +119,7 @@ def stage_index(ctx: Ctx, cs: Cases):
 
     shapes3 = [(2, 3, 5), (1, 4, 1), (3, 2, 4), (5, 1, 2), (2, 2, 2), (4, 3, 2), (1, 1, 1), (7, 2, 3), (1, 1, 6), (3, 5, 1)]
     shapes2 = [(2, 3), (5, 4), (1, 6), (3, 1), (4, 4), (7, 2), (1, 1), (2, 9)]
-    nrand = 4 if ctx.quick else 40
+    nrand = 4 if ctx.quick else 150
     for _ in range(nrand):
         shapes3.append(tuple(ctx.rng.randint(1, 6 if ctx.quick else 11) for _ in range(3)))
         shapes2.append(tuple(ctx.rng.randint(1, 12 if ctx.quick else 40) for _ in range(2)))
@@ -198,7 +198,7 @@ def stage_layout(ctx: Ctx, cs: Cases):
              ((0, 0, 0), [[1, 0, 0], [0, 1, 0], [0, 0, 1]], (3, 2, 4)),
              ((-1, 2, -3), [[0, 0, 2], [3, 0, 0], [0, -1, 0]], (4, 3, 2)),
              ((5, -7), [[2, 1], [-1, 3]], (2, 3)), ((0, 0), [[1, 0], [0, 1]], (5, 4)), ((1, 1), [[0, 2], [3, 1]], (7, 2))]
-    for _ in range(6 if ctx.quick else 60):
+    for _ in range(6 if ctx.quick else 200):
         d = ctx.rng.choice([2, 3])
         confs.append((tuple(ctx.rng.randint(-9, 9) for _ in range(d)), rand_axes(ctx, d),
                       tuple(ctx.rng.randint(2, 5 if ctx.quick else 8) for _ in range(d))))
@@ -247,7 +247,7 @@ def stage_layout(ctx: Ctx, cs: Cases):
     # ---- Tensor1DGrids: integer nodes and (distinct, coprime) integer weights
     primes = [2, 3, 5, 7, 11, 13, 17, 19, 23, 29, 31, 37, 41, 43, 47, 53, 59, 61, 67, 71, 73, 79]
     tconfs = [(2, 3, 5), (3, 2, 4), (4, 3, 2), (2, 3), (5, 4), (7, 2)]
-    for _ in range(4 if ctx.quick else 40):
+    for _ in range(4 if ctx.quick else 150):
         d = ctx.rng.choice([2, 3])
         tconfs.append(tuple(ctx.rng.randint(2, 5 if ctx.quick else 7) for _ in range(d)))
     for shape in tconfs:
@@ -316,7 +316,7 @@ def stage_weights(ctx: Ctx, cs: Cases, tac: list):
              ([[2, 0, 0], [0, 1, 0], [0, 0, 3]], (3, 2, 4)), ([[1, 0], [0, 1]], (4, 4)), ([[2, 1], [-1, 3]], (2, 3)),
              ([[1, 0, 0], [0, 1, 0], [0, 0, 1]], (30, 40, 50)), ([[1, 2, 0], [0, 1, 0], [1, 0, 1]], (17, 9, 23)),
              ([[1, 0], [0, 1]], (25, 60)), ([[3, 1], [1, 2]], (31, 8))]
-    for _ in range(4 if ctx.quick else 40):
+    for _ in range(4 if ctx.quick else 120):
         d = ctx.rng.choice([2, 3])
         confs.append((rand_axes(ctx, d), tuple(ctx.rng.randint(2, 9 if ctx.quick else 30) for _ in range(d))))
     fourier_small = 0
@@ -370,7 +370,7 @@ def stage_weights(ctx: Ctx, cs: Cases, tac: list):
                 def handler(key=key, rep=rep, d=d):
                     ctx.fail(f"weights_sum_bound{d}", key, None, f"{rep}: weights differ from the model (the sum bound still holds here)", found_input=False)
                 cs.add(expr, handler)
-            elif n <= 64 and fourier_small < (6 if ctx.quick else 16):
+            elif n <= 64 and fourier_small < (6 if ctx.quick else 40):
                 # interval correspondence, weight by weight
                 fourier_small += scheme == "Fourier2" or d == 2
                 fn = "fourier1_weights" if scheme == "Fourier1" else "fourier2_weights"
@@ -422,7 +422,7 @@ def stage_box(ctx: Ctx, cs: Cases):
 
     mols = [([1, 80], [[0, 0, 0], [10, 0, 0]], 0.25, 5.0), ([8, 8], [[-1, 0, 0], [1, 0, 0]], 0.5, 2.0),
             ([6, 6, 6, 6], [[1, 1, 0], [-1, 1, 0], [1, -1, 0], [-1, -1, 0]], 0.25, 1.0), ([1, 80], [[0, 0, 0], [10, 0, 0]], 0.2, 5.0)]
-    for _ in range(25 if ctx.quick else 300):
+    for _ in range(25 if ctx.quick else 1500):
         na = ctx.rng.randint(1, 5)
         sym = ctx.rng.random() < 0.4
         if sym:  # inversion-symmetric molecule with equal charges on partners: centre of charge = middle of the extent
@@ -494,7 +494,7 @@ def stage_box(ctx: Ctx, cs: Cases):
                  f"with extension=2.0 the grid starts at x={float(g2.origin[0]):.4f}, i.e. the nucleus is outside the box",
                  {"reproduce": rep + ".origin", "origin": np.asarray(g.origin).tolist(), "shape": np.asarray(g.shape).tolist()})
     # ---- rotate=True (eigenvector frame is an oracle): orthogonal axes of length `spacing`, guaranteed margins in the grid's frame
-    for _ in range(10 if ctx.quick else 100):
+    for _ in range(10 if ctx.quick else 300):
         na = ctx.rng.randint(2, 5)
         coords = np.array([[ctx.rng.randint(-24, 24) / 8 for _ in range(3)] for _ in range(na)])
         nums = np.array([float(ctx.rng.randint(1, 20)) for _ in range(na)])
@@ -559,7 +559,7 @@ def stage_closest(ctx: Ctx, cs: Cases):
     from grid.cubic import UniformGrid
 
     grids = [((0, 0, 0), (1, 1, 1), (3, 4, 5)), ((-1, 0.5, 2), (0.25, 0.5, 2), (4, 3, 2)), ((0, 0), (1, 1), (5, 4)), ((1.5, -2), (0.125, 3), (7, 2))]
-    for _ in range(3 if ctx.quick else 30):
+    for _ in range(3 if ctx.quick else 100):
         d = ctx.rng.choice([2, 3])
         grids.append((tuple(ctx.rng.randint(-16, 16) / 8 for _ in range(d)), tuple(ctx.rng.choice([0.125, 0.25, 0.5, 1, 2, 3]) for _ in range(d)),
                       tuple(ctx.rng.randint(2, 5) for _ in range(d))))
@@ -631,7 +631,7 @@ def stage_cube(ctx: Ctx):
 
     tmp = ctx.build / "cube_tmp"
     tmp.mkdir(exist_ok=True)
-    for trial in range(6 if ctx.quick else 60):
+    for trial in range(6 if ctx.quick else 200):
         shape = tuple(ctx.rng.randint(2, 5) for _ in range(3))
         n = prod(shape)
         o = [ctx.rng.randint(-640, 640) / 64 for _ in range(3)]
@@ -745,7 +745,7 @@ def stage_interp(ctx: Ctx):
         return np.array(out)
 
     worst = 0.0
-    for trial in range(4 if ctx.quick else 30):
+    for trial in range(4 if ctx.quick else 80):
         shape = tuple(ctx.rng.randint(7, 9) for _ in range(3))
         if trial % 2 == 0:
             o = np.array([ctx.rng.randint(-8, 8) / 8 for _ in range(3)])
